@@ -215,4 +215,34 @@ theorem expr_complete (hV : SemverAgree) (gf : Nat) : CompleteE gf ∧ CompleteP
   | succ g ih =>
     obtain ⟨ihE, ihP, ihA⟩ := ih
     exact ⟨gExpr_complete_step g ihP, gPrimary_complete_step hV g ihE ihA, gArg_complete_step g ihE⟩
+
+/-! ### the shape of a completeness statement (used for the rest of the language) -/
+
+/-- the rest `r` starts with a terminal (keyword or punctuation) whose kind is not in `bad` -/
+def FollowLit (bad : List Token) (r : List STok) : Prop :=
+  ∃ k, isLit k = true ∧ k ∉ bad ∧ r.head? = some (litTok k)
+
+theorem FollowLit.peek {bad : List Token} {st : PState} (h : FollowLit bad (abs st)) :
+    ∃ k, peekTok st = some k ∧ k ∉ bad := by
+  obtain ⟨k, hk, hb, hh⟩ := h
+  exact ⟨k, peekTok_of_head hk hh, hb⟩
+
+theorem FollowLit.peekErr {bad : List Token} {st : PState} (h : FollowLit bad (abs st)) :
+    peekErr st = false := by
+  obtain ⟨k, hk, _⟩ := h.peek
+  exact peekErr_of_peekTok hk
+
+theorem FollowLit.mono {bad bad' : List Token} {r : List STok} (h : FollowLit bad r)
+    (hsub : ∀ k, k ∈ bad' → k ∈ bad) : FollowLit bad' r := by
+  obtain ⟨k, hk, hb, hh⟩ := h
+  exact ⟨k, hk, fun hm => hb (hsub k hm), hh⟩
+
+/-- every derivation `(x, r)` of `g gf` from `abs st` whose rest satisfies `follow` is what the
+parser returns (with any parser fuel `pf ≥ gf + 2`), and the parser consumed at least one item -/
+def Complete {α β : Type} (er : α → β) (parse : Nat → PState → PR α) (g : Nat → SP β)
+    (follow : List STok → Prop) (gf : Nat) : Prop :=
+  ∀ st x r, (x, r) ∈ g gf (abs st) → follow r → ∀ pf, gf + 2 ≤ pf →
+    ∃ x0 st', parse pf st = .ok (x0, st') ∧ er x0 = x ∧ abs st' = r ∧
+      st'.toks.length < st.toks.length
+
 end Wac.C12
